@@ -748,6 +748,13 @@ def monitor(case, impl, sh):
     for k in ("rt_ok",):
         if k in impl and impl[k] != "1":
             fail("C11", "contents after the round trip / conversion differ")
+    if "rc_inc" in impl and _i(impl, "rc_inc") != _i(impl, "rc_as_ptr"):
+        fail("C11", "RefCnt::inc hands out offset %s, as_ptr/into_ptr of the same handle give %s: the pointer does not round-trip through from_ptr" % (impl["rc_inc"], impl.get("rc_as_ptr")),
+             accessor="refcnt.inc", observed=_i(impl, "rc_inc"))
+        if kind == "thin":
+            fail("C10", "RefCnt::inc of a ThinArc hands out a pointer (offset %s) that is not the ThinArc's raw pointer (offset %s)" % (impl["rc_inc"], impl.get("rc_as_ptr")))
+    if "rc_inc_cnt" in impl and _i(impl, "rc_inc_cnt") != 2:
+        fail("C11", "count after RefCnt::inc is %s, must be 2" % impl["rc_inc_cnt"])
     if "rt_cnt" in impl and _i(impl, "rt_cnt") != 1:
         fail("C11", "count after the round trip is %s, must be 1" % impl["rt_cnt"])
     if "cl_cnt" in impl and _i(impl, "cl_cnt") != 2:
